@@ -88,7 +88,37 @@ def c16_ledger():
     return viol, {"kind": "native replay (testing, not proof)", "inputs": len(paths), "outcomes": {os.path.basename(r["file"]): r["outcome"] for r in recs}}
 
 
+def c10_walk_conformance():
+    """BOUNDED conformance test (not proof) of the assumed contract `walk` = replace_tilde_or_at_in_expr, on the real code:
+    all token trees over {~ @ a 1 +} with <= 2 tokens per level and groups () [] {} nested to depth 2, plus hand-written cases."""
+    import os
+    import subprocess
+    verif = os.path.dirname(os.path.dirname(os.path.abspath(__file__)))
+    recs, err = replay_inputs([])   # builds the replay crate (both binaries) from the current tree
+    exe = os.path.join(verif, "build", "replay-target", "release", "walk_conformance")
+    if recs is None or not os.path.exists(exe):
+        return [], {"kind": "bounded conformance test of an assumed contract", "skipped": err or "binary missing"}
+    p = subprocess.run([exe], capture_output=True, text=True, timeout=600)
+    lines = p.stdout.strip().split("\n")
+    import json
+    head = json.loads(lines[0]) if lines and lines[0].startswith("{") else {"cases": 0, "failures": -1}
+    viol = []
+    fails = [l.split("\t") for l in lines[1:] if l.startswith("FAIL\t")]
+    if head["failures"] != 0:
+        ex = fails[0] if fails else ["", "?", "?", "?"]
+        viol.append({"obligation": "replace_tilde_or_at_in_expr.assumed-contract[walk]", "fn": "replace_tilde_or_at_in_expr", "props": ["C10"],
+                     "message": "the real token walk disagrees with its assumed contract on %d of %d enumerated expressions" % (head["failures"], head["cases"]),
+                     "failing_input": {"engine": "native replay of the real derive", "expression": ex[1], "derive_input": "#[from_owned(B)] struct A { #[from({ %s })] x: i32 }" % ex[1],
+                                       "expected": ex[2], "got": ex[3], "more": [f[1] for f in fails[1:10]]},
+                     "rendered": "\n".join(lines[:11]), "where": [], "unit": "replay"})
+    return viol, {"kind": "bounded conformance test of the assumed contract `walk` (testing, not proof)", "cases": head["cases"], "failures": head["failures"],
+                  "bound": "token trees over {~ @ a 1 +}, <= 2 tokens per level, groups () [] {} nested to depth 2, all adjacent pairs; 22 hand-written expressions", "exhaustive_within_bound": True}
+
+
 def run(prop, tier):
+    if prop == "C10":
+        v, rep = c10_walk_conformance()
+        return {"violations": v, "report": {"walk_conformance": rep}}
     if prop == "C16":
         v, rep = c16_ledger()
         return {"violations": v, "report": {"ledger_inputs": rep}}
